@@ -179,9 +179,11 @@ func (c *Case) InjectAborts() {
 
 // Family is a list of cases: N(tier) cases, each executed by Run.
 type Family struct {
-	Name string
-	N    func(tier string) int
-	Run  func(c *Case)
+	// CPUBudget (seconds) overrides the worker's per-case CPU budget for families whose inputs are tiny.
+	CPUBudget int
+	Name      string
+	N         func(tier string) int
+	Run       func(c *Case)
 }
 
 // Monitor is the check of one property.
